@@ -455,7 +455,10 @@ def fault_points(ty, cfg, path=(), vtag="", extra=False, via_ptr=False):
             if "inline" in opts:
                 inner = f["ty"]["e"] if f["ty"]["t"] == "ptr" else f["ty"]
                 if inner["t"] == "struct":
-                    out += [p for p in fault_points(inner, cfg, path, "", extra) if p[1] != "not-object" or p[0] != path]
+                    # faults that replace the setting of the enclosing struct as a whole (not an object, null, left out) belong to
+                    # that struct, not to the struct inlined into it (which may sit behind a pointer that a null leaves nil)
+                    out += [p for p in fault_points(inner, cfg, path, "", extra)
+                            if p[0] != path or not (p[1] == "not-object" or p[1].startswith(("null-struct", "absent-struct")))]
                 continue
             key = field_key(f)
             if key in d:
